@@ -696,6 +696,14 @@ where
 
         let partition_count = 1usize << (partition_order as usize);
         let partition_len = block_size / partition_count;
+        // The partitions must tile the block and the first one must hold all
+        // warm-up samples (as `Residual::new` demands); `Residual` assumes both.
+        if block_size % partition_count != 0 || warmup_length > partition_len {
+            return Err(nom::Err::Error(error_position!(
+                remaining_input,
+                nom::error::ErrorKind::Verify
+            )));
+        }
 
         let mut rice_params = Vec::with_capacity(partition_count);
         let mut quotients = Vec::with_capacity(block_size);
